@@ -106,6 +106,13 @@ AreLongest(r, w, ms) == \A i \in 1..Len(ms) : ms[i][2] = GreedyEnd(r, w, ms[i][1
 OrderedDisjoint(ms) == \A i \in 1..(Len(ms) - 1) : ms[i][2] <= ms[i + 1][1]
 Complete(r, w, ms) == \A s \in 0..(Len(w) - 1) :
                         GreedySucceeds(r, w, s) => \E i \in 1..Len(ms) : ms[i][1] <= s /\ s < ms[i][2]
+(* EvictEnclosing (finding F10-C14): position s is left uncovered although greedy matching *)
+(* succeeds there, because a reported match that starts later lies inside its greedy span  *)
+Covered(ms, s) == \E i \in 1..Len(ms) : ms[i][1] <= s /\ s < ms[i][2]
+Evicted(r, w, ms, s) == /\ GreedySucceeds(r, w, s) /\ ~Covered(ms, s)
+                        /\ \E i \in 1..Len(ms) : s < ms[i][1] /\ ms[i][2] <= GreedyEnd(r, w, s)
+CompleteUpToEviction(r, w, ms) == \A s \in 0..(Len(w) - 1) :
+                                    GreedySucceeds(r, w, s) => Covered(ms, s) \/ Evicted(r, w, ms, s)
 SearchOK(r, w, ms) == InBounds(w, ms) /\ AreWords(r, w, ms) /\ AreLongest(r, w, ms)
                       /\ OrderedDisjoint(ms) /\ Complete(r, w, ms)
 FirstFailingSearchClause(r, w, ms) ==
@@ -113,6 +120,7 @@ FirstFailingSearchClause(r, w, ms) ==
     [] ~AreWords(r, w, ms) -> "AreWords"
     [] ~AreLongest(r, w, ms) -> "AreLongest"
     [] ~OrderedDisjoint(ms) -> "OrderedDisjoint"
-    [] ~Complete(r, w, ms) -> "Complete"
+    [] ~CompleteUpToEviction(r, w, ms) -> "Complete"
+    [] ~Complete(r, w, ms) -> "Complete:EvictedByEnclosedMatch"
     [] OTHER -> "none"
 =============================================================================
